@@ -88,11 +88,18 @@ func genPlan(r *Rng, allowStutter, allowEOFData bool) ReadPlan {
 	if allowEOFData && r.Chance(1, 4) {
 		p.EOFWithData = true
 	}
+	if r.Chance(1, 16) {
+		// a standard-library reader instead of the simulated one
+		p = ReadPlan{Native: []string{"bytes", "bufio"}[r.Intn(2)]}
+	}
 	return p
 }
 
 func planClass(p ReadPlan) string {
 	c := "full"
+	if p.Native != "" {
+		return "native-" + p.Native
+	}
 	switch {
 	case len(p.Chunks) > 0:
 		c = "mixed"
